@@ -294,7 +294,6 @@ Proof.
 Qed.
 
 (* entries of a single budget: the specification's decisions are [key_decs] of its stamps *)
-Definition dec_of_bool (b : bool) : dec := if b then DKeep else DDrop.
 Lemma spec_decs_one_key c k es : forall pre,
   Forall (fun e => se_cls e = CKey k) es ->
   spec_decs c pre es =
@@ -527,10 +526,116 @@ Proof.
   - now apply bytes_eqb_eq.
   - induction l as [|a r IHr]; [reflexivity|]. now rewrite IH, IHr.
 Qed.
+
+(* splitting a history into a prefix and a batch *)
+Fixpoint fam_after (fam : list (nat * nat)) (n : nat) (ops : list op) : list (nat * nat) * nat :=
+  match ops with
+  | [] => (fam, n)
+  | Log _ :: r => fam_after fam n r
+  | With p :: r => let '(root, depth) := nth p fam (0%nat, 0%nat) in fam_after (fam ++ [(root, S depth)]) n r
+  | NewRoot :: r => fam_after (fam ++ [(n, 0%nat)]) (S n) r
+  end.
+Lemma resolve_from_app a : forall fam n b,
+  resolve_from fam n (a ++ b) =
+  resolve_from fam n a ++ resolve_from (fst (fam_after fam n a)) (snd (fam_after fam n a)) b.
+Proof.
+  induction a as [|o r IH]; intros fam n b; [reflexivity|].
+  destruct o as [e|p|]; cbn [app resolve_from fam_after].
+  - destruct (nth (e_core e) fam (0%nat, 0%nat)) as [root depth]. cbn [app]. now rewrite IH.
+  - destruct (nth p fam (0%nat, 0%nat)) as [root depth]. apply IH.
+  - apply IH.
+Qed.
+Lemma resolve_from_length a : forall fam n, length (resolve_from fam n a) = n_logs a.
+Proof.
+  unfold n_logs. induction a as [|o r IH]; intros fam n; [reflexivity|].
+  destruct o as [e|p|]; cbn [resolve_from filter is_log].
+  - destruct (nth (e_core e) fam (0%nat, 0%nat)) as [root depth]. cbn [length]. now rewrite IH.
+  - destruct (nth p fam (0%nat, 0%nat)) as [root depth]. apply IH.
+  - apply IH.
+Qed.
+Lemma sentries_app pre batch :
+  exists X, sentries (pre ++ batch) = sentries pre ++ X /\ length (sentries pre) = n_logs pre.
+Proof.
+  unfold sentries, resolve. rewrite resolve_from_app, map_app. eexists. split; [reflexivity|].
+  rewrite map_length. apply resolve_from_length.
+Qed.
+Lemma skipn_len_app {A} (l1 l2 : list A) : skipn (length l1) (l1 ++ l2) = l2.
+Proof. induction l1 as [|x r IH]; [reflexivity|]. exact IH. Qed.
+Lemma firstn_len_app {A} (l1 l2 : list A) : firstn (length l1) (l1 ++ l2) = l1.
+Proof. induction l1 as [|x r IH]; cbn [length firstn app]; [now destruct l2|]. now rewrite IH. Qed.
+Lemma spec_decs_app c a : forall p b, spec_decs c p (a ++ b) = spec_decs c p a ++ spec_decs c (p ++ a) b.
+Proof.
+  induction a as [|e r IH]; intros p b; cbn [app spec_decs]; [now rewrite app_nil_r|].
+  rewrite IH, <- app_assoc. reflexivity.
+Qed.
+Lemma outcomes_of_app d1 : forall e1 d2 e2, length d1 = length e1 ->
+  outcomes_of (d1 ++ d2) (e1 ++ e2) = outcomes_of d1 e1 ++ outcomes_of d2 e2.
+Proof.
+  induction d1 as [|d r IH]; intros [|e e1] d2 e2 H; try discriminate; [reflexivity|].
+  cbn [app outcomes_of]. f_equal. apply IH. cbn [length] in H. lia.
+Qed.
+Lemma outcomes_of_length ds : forall es, length ds = length es -> length (outcomes_of ds es) = length es.
+Proof.
+  induction ds as [|d r IH]; intros [|e es] H; try discriminate; [reflexivity|].
+  cbn [outcomes_of length]. f_equal. apply IH. cbn [length] in H. lia.
+Qed.
+Lemma spec_outcomes_app c pre batch X : sentries (pre ++ batch) = sentries pre ++ X ->
+  spec_outcomes c (pre ++ batch) = spec_outcomes c pre ++ outcomes_of (spec_decs c (sentries pre) X) X.
+Proof.
+  intros H. unfold spec_outcomes. rewrite H, spec_decs_app. cbn [app].
+  apply outcomes_of_app. apply spec_decs_length.
+Qed.
+Lemma spec_outcomes_length c ops : length (spec_outcomes c ops) = length (sentries ops).
+Proof. unfold spec_outcomes. apply outcomes_of_length, spec_decs_length. Qed.
+
+Lemma has_key_cls k e : has_key k e = true -> se_cls e = CKey k.
+Proof.
+  unfold has_key. destruct (se_cls e) as [| |k']; try discriminate. intros H. apply key_eqb_eq in H. now subst.
+Qed.
+Lemma key_decs_length N M tick ts : forall w, length (key_decs N M tick w ts) = length ts.
+Proof. induction ts as [|t r IH]; intros w; cbn [key_decs length]; [reflexivity|]. now rewrite IH. Qed.
+
+(* canonical batch records depend only on (hooks, forwarded) of the records *)
+Lemma canon_short l1 : forall l2, map decided l1 = map decided l2 ->
+  map enc_short (canon l1) = map enc_short (canon l2).
+Proof.
+  assert (H : forall (f : outcome -> bool), (forall a b, decided a = decided b -> f a = f b) ->
+            forall la lb, map decided la = map decided lb -> map enc_short (filter f la) = map enc_short (filter f lb)).
+  { intros f Hf la. induction la as [|a r IH]; intros [|b r2] E; try discriminate; [reflexivity|].
+    cbn [map] in E. pose proof (f_equal (@tl _) E) as Er. pose proof (f_equal (hd (decided a)) E) as Eh. cbn [hd tl] in Eh, Er.
+    cbn [filter]. rewrite (Hf a b Eh). destruct (f b); cbn [map]; rewrite (IH r2 Er); [|reflexivity].
+    f_equal. unfold decided in Eh. injection Eh as E1 E2. unfold enc_short. now rewrite E1, E2. }
+  intros l2 E. unfold canon. rewrite !map_app. f_equal; apply H; auto.
+  - intros a b Hab. unfold decided in Hab. now injection Hab.
+  - intros a b Hab. unfold decided in Hab. injection Hab as _ Hf. now rewrite Hf.
+Qed.
+Lemma decided_outcomes_bool bs : forall X, length bs = length X ->
+  map decided (outcomes_of (map dec_of_bool bs) X) = map decided (map (fun b => outcome_of (dec_of_bool b) 0) bs).
+Proof.
+  induction bs as [|b r IH]; intros [|x X] H; try discriminate; [reflexivity|].
+  cbn [map outcomes_of]. f_equal; [destruct b; reflexivity|]. apply IH. cbn [length] in H. lia.
+Qed.
+
 Theorem spec_model i : wf i = true -> spec i (model i) = true.
 Proof.
   unfold wf, spec, model. destruct (is_conc i).
   - rewrite andb_true_iff. intros [Hwf Hwin]. rewrite Hwf, Hwin. cbn [negb andb].
-    rewrite (sequential_thm _ _ Hwf). apply sx_eqb_refl.
+    set (c := dec_cfg i) in *. set (pre := dec_ops (sx_nth i 4)) in *. set (batch := dec_ops (sx_nth i 5)) in *.
+    rewrite (sequential_thm _ _ Hwf).
+    destruct (sentries_app pre batch) as [X [HX Hlen]].
+    rewrite (spec_outcomes_app c pre batch X HX). unfold enc_obs.
+    assert (Hl : n_logs pre = length (spec_outcomes c pre)) by (rewrite spec_outcomes_length; now rewrite Hlen).
+    rewrite Hl, firstn_len_app, skipn_len_app.
+    assert (Hb : map enc_short (canon (outcomes_of (spec_decs c (sentries pre) X) X)) = map enc_short (conc_expected c pre batch)).
+    { unfold conc_expected, batch_in_window in *. apply andb_true_iff in Hwin. destruct Hwin as [_ Hwin].
+      rewrite HX, <- Hlen, skipn_len_app in *. destruct X as [|e0 r]; [reflexivity|].
+      destruct (se_cls e0) as [| |k] eqn:Ecls; try discriminate Hwin.
+      destruct (wstate (c_tick c) (hist k (sentries pre))) as [[end_ p]|] eqn:Ew; [|discriminate Hwin].
+      assert (HF : Forall (fun e => se_cls e = CKey k) (e0 :: r)).
+      { rewrite forallb_forall in Hwin. apply Forall_forall. intros e He. specialize (Hwin e He).
+        apply andb_true_iff in Hwin. apply has_key_cls. exact (proj1 Hwin). }
+      rewrite (spec_decs_one_key c k (e0 :: r) (sentries pre) HF), Ew.
+      apply canon_short. apply decided_outcomes_bool. rewrite key_decs_length. apply map_length. }
+    rewrite Hb. apply sx_eqb_refl.
   - intros Hwf. rewrite Hwf. cbn [negb]. rewrite (sequential_thm _ _ Hwf). apply sx_eqb_refl.
 Qed.
